@@ -58,6 +58,8 @@ type interp struct {
 	trace    []Decision
 	pc       []*smt.Term
 	pcSet    map[int]bool
+	order    map[int][]orderEdge
+	succDone map[int]bool
 	model    map[string]uint64 // a model of the current path condition, or nil
 	pending  []pendingAssert
 	steps    int
